@@ -26,3 +26,166 @@ async fn replay_c14_many_failed_connects() {
     }
     assert!(!died, "the connection task died after repeated connection failures");
 }
+
+use tokio::net::TcpListener;
+use tokio_util::codec::{Framed, LengthDelimitedCodec};
+
+/// One session of a recording peer: accepts one connection, records every frame, replies `reply-to:<frame>` to the
+/// first `acks` frames and then drops the connection WITHOUT answering frame number `acks` (if there is one).
+async fn peer_session(listener: &TcpListener, acks: usize, log: &mut Vec<String>) {
+    let (socket, _) = listener.accept().await.unwrap();
+    let (mut writer, mut reader) = Framed::new(socket, LengthDelimitedCodec::new()).split();
+    let mut n = 0;
+    while let Some(Ok(frame)) = reader.next().await {
+        let text = String::from_utf8_lossy(&frame).to_string();
+        log.push(text.clone());
+        if n == acks {
+            return;
+        }
+        writer.send(Bytes::from(format!("reply-to:{}", text))).await.unwrap();
+        n += 1;
+    }
+}
+
+/// Executable mirror of C14 on the REAL `Connection` task: messages are handed over while the peer is down (`early`),
+/// the peer comes up, answers `first_acks` frames and cuts the connection without answering the next one, `late` more
+/// messages are handed over, the peer comes back and answers everything.  Checked: first deliveries happen in hand-over
+/// order, every handle resolves with the reply to that very message, and a message whose handle was dropped before the
+/// peer came up is not transmitted after a reconnect.
+async fn scenario(port: u16, early: usize, first_acks: usize, late: usize, cancel: Option<usize>) -> Result<(), String> {
+    let address = format!("127.0.0.1:{}", port).parse::<SocketAddr>().unwrap();
+    let (tx, rx) = channel(100);
+    tokio::spawn(async move {
+        Connection { address, receiver: rx, retry_delay: 5, buffer: VecDeque::new() }.run().await;
+    });
+    let mut handles = Vec::new();
+    let mut names = Vec::new();
+    for i in 0..early {
+        let (sender, receiver) = oneshot::channel();
+        let name = format!("m{}", i);
+        tx.send(InnerMessage { data: Bytes::from(name.clone()), cancel_handler: sender }).await.unwrap();
+        // hand-overs are spread over several failed connection attempts
+        tokio::time::sleep(Duration::from_millis(7)).await;
+        handles.push(Some(receiver));
+        names.push(name);
+    }
+    if let Some(c) = cancel {
+        if c < handles.len() {
+            handles[c] = None;      // the owner drops the handle: the message must stop being (re)transmitted
+        }
+    }
+    tokio::time::sleep(Duration::from_millis(30)).await;
+    let listener = TcpListener::bind(&address).await.map_err(|e| e.to_string())?;
+    let mut log = Vec::new();
+    let live: usize = handles.iter().filter(|h| h.is_some()).count();
+    let cut = first_acks < live;
+    let _ = timeout(Duration::from_millis(400), peer_session(&listener, if cut { first_acks } else { usize::MAX }, &mut log)).await;
+    for i in 0..late {
+        let (sender, receiver) = oneshot::channel();
+        let name = format!("l{}", i);
+        tx.send(InnerMessage { data: Bytes::from(name.clone()), cancel_handler: sender }).await.unwrap();
+        handles.push(Some(receiver));
+        names.push(name);
+    }
+    let _ = timeout(Duration::from_millis(600), peer_session(&listener, usize::MAX, &mut log)).await;
+    // (1) first deliveries in hand-over order
+    let mut firsts: Vec<String> = Vec::new();
+    for f in log.iter() {
+        if !firsts.contains(f) {
+            firsts.push(f.clone());
+        }
+    }
+    let expected: Vec<String> = names.iter().enumerate().filter(|(i, _)| handles[*i].is_some()).map(|(_, n)| n.clone()).collect();
+    let firsts_live: Vec<String> = firsts.iter().filter(|f| expected.contains(f)).cloned().collect();
+    if firsts_live != expected {
+        return Err(format!("first deliveries {:?} are not the hand-over order {:?}", firsts_live, expected));
+    }
+    // (2) a cancelled message is not transmitted once its handle is gone (it was dropped before any connection existed)
+    if let Some(c) = cancel {
+        if c < early && log.contains(&names[c]) {
+            return Err(format!("message {} was transmitted although its handle had been dropped before the peer came up", names[c]));
+        }
+    }
+    // (3) every kept handle resolves with the reply to that very message
+    for (i, h) in handles.into_iter().enumerate() {
+        if let Some(h) = h {
+            match timeout(Duration::from_millis(500), h).await {
+                Ok(Ok(reply)) => {
+                    let want = format!("reply-to:{}", names[i]);
+                    if reply != Bytes::from(want.clone()) {
+                        return Err(format!("handle of {} resolved with {:?}, expected {:?}", names[i], reply, want));
+                    }
+                }
+                other => return Err(format!("handle of {} did not resolve with a reply: {:?}", names[i], other.map(|r| r.is_ok()))),
+            }
+        }
+    }
+    Ok(())
+}
+
+#[tokio::test]
+async fn replay_c14_order_and_pairing() {
+    let mut failures = Vec::new();
+    // (early hand-overs while the peer is down, frames answered before the cut, late hand-overs, cancelled index)
+    let cases: Vec<(usize, usize, usize, Option<usize>)> = vec![
+        (1, 9, 0, None), (3, 9, 0, None), (4, 2, 2, None), (3, 0, 1, None), (5, 9, 2, Some(1)), (4, 1, 3, Some(0)), (6, 3, 0, Some(5)),
+    ];
+    for (n, (early, acks, late, cancel)) in cases.iter().enumerate() {
+        if let Err(e) = scenario(5960 + n as u16, *early, *acks, *late, *cancel).await {
+            failures.push(format!("{} hand-overs while the peer is down, peer cuts the connection after answering {} frames, {} later hand-overs, cancelled {:?}: {}", early, acks, late, cancel, e));
+        }
+    }
+    for f in failures.iter().take(4) { println!("FAILING-INPUT property=C14 {}", f); }
+    assert!(failures.is_empty(), "C14 violated on the real code in {} scenarios", failures.len());
+}
+
+/// `ReliableSender::broadcast` returns the cancel handlers "ordered as the input addresses vector": the mempool credits the
+/// stake of name i to handler i (C12), so handler i must resolve with the reply of the peer at addresses[i] and of no other.
+/// Real sender, real sockets: each peer answers every frame with its own port number.
+#[tokio::test]
+async fn replay_c12_broadcast_order() {
+    let ports: Vec<u16> = (0..5).map(|i| 5980 + i).collect();
+    for p in ports.iter() {
+        let address = format!("127.0.0.1:{}", p).parse::<SocketAddr>().unwrap();
+        let listener = TcpListener::bind(&address).await.unwrap();
+        let tag = p.to_string();
+        tokio::spawn(async move {
+            loop {
+                let (socket, _) = listener.accept().await.unwrap();
+                let tag = tag.clone();
+                tokio::spawn(async move {
+                    let (mut writer, mut reader) = Framed::new(socket, LengthDelimitedCodec::new()).split();
+                    while let Some(Ok(_)) = reader.next().await {
+                        if writer.send(Bytes::from(tag.clone())).await.is_err() { break; }
+                    }
+                });
+            }
+        });
+    }
+    let mut failures = Vec::new();
+    let mut sender = ReliableSender::new();
+    for round in 0..12usize {
+        // every rotation and a few sub-lists of the peers
+        let mut order: Vec<u16> = ports.clone();
+        order.rotate_left(round % ports.len());
+        order.truncate(2 + round % 4);
+        let addresses: Vec<SocketAddr> = order.iter().map(|p| format!("127.0.0.1:{}", p).parse().unwrap()).collect();
+        let handlers = sender.broadcast(addresses, Bytes::from(format!("batch {}", round))).await;
+        if handlers.len() != order.len() {
+            failures.push(format!("broadcast to {:?} returned {} handlers", order, handlers.len()));
+            continue;
+        }
+        for (i, h) in handlers.into_iter().enumerate() {
+            match timeout(Duration::from_millis(1000), h).await {
+                Ok(Ok(reply)) => {
+                    if reply != Bytes::from(order[i].to_string()) {
+                        failures.push(format!("broadcast to {:?}: handler #{} resolved with the acknowledgement of peer {:?}, not of peer {}", order, i, reply, order[i]));
+                    }
+                }
+                _ => failures.push(format!("broadcast to {:?}: handler #{} did not resolve", order, i)),
+            }
+        }
+    }
+    for f in failures.iter().take(4) { println!("FAILING-INPUT property=C12 {}", f); }
+    assert!(failures.is_empty(), "broadcast does not return its handlers in input order ({} findings)", failures.len());
+}
